@@ -51,6 +51,9 @@ type Op struct {
 type Case struct {
 	RootExt int  `json:"root_ext,omitempty"`
 	Ops     []Op `json:"ops"`
+	// ExtForm[i-1]: the Go representation of external lookup i (see extForm* in model_test.go);
+	// missing entries mean the pointer form
+	ExtForm []int `json:"ext_form,omitempty"`
 }
 
 const maxLive = 12
@@ -95,6 +98,11 @@ func renderOp(op Op) string {
 
 func renderHistory(c Case, upto int) string {
 	var b strings.Builder
+	for i, f := range c.ExtForm {
+		if i < 3 && normExtForm(f) != extFormPtr {
+			fmt.Fprintf(&b, "ext%d is a %s\n", i+1, extFormNames[normExtForm(f)])
+		}
+	}
 	fmt.Fprintf(&b, "s0 = env.NewEnv() ext%d\n", c.RootExt)
 	for i, op := range c.Ops {
 		if i > upto {
@@ -212,6 +220,25 @@ func genExt(t *rapid.T) int {
 	return int(rapid.SampledFrom(extDraw).Draw(t, "ext")[0] - '0')
 }
 
+var extFormDraw = smooth([]wop{{"0", 3}, {"1", 2}, {"2", 2}, {"3", 2}, {"4", 1}})
+
+// genExtForms draws the Go representation of each of the three external lookups of a case. Half of
+// the cases give all three the same representation (a host has one way of writing its lookups),
+// the other half draws them independently.
+func genExtForms(t *rapid.T) []int {
+	form := func() int { return int(rapid.SampledFrom(extFormDraw).Draw(t, "extform")[0] - '0') }
+	f := []int{form(), 0, 0}
+	if rapid.Bool().Draw(t, "extforms-differ") {
+		f[1], f[2] = form(), form()
+	} else {
+		f[1], f[2] = f[0], f[0]
+	}
+	if f[0] == 0 && f[1] == 0 && f[2] == 0 {
+		return nil
+	}
+	return f
+}
+
 // kpath is a generator-side guess "path resolves when looked up from scope anchor"
 // (only a bias for GetEnvFromPath; the oracle does not use it).
 type kpath struct {
@@ -261,6 +288,7 @@ func genShadowed(t *rapid.T) Case {
 			c.Ops = append(c.Ops, Op{Op: "GetEnvFromPath", S: -rapid.IntRange(1, 3).Draw(t, "ts"), Path: paths[rapid.IntRange(0, len(paths)-1).Draw(t, "path")]})
 		}
 	}
+	c.ExtForm = genExtForms(t)
 	return c
 }
 
@@ -384,6 +412,7 @@ func genWith(t *rapid.T, pr *profile) Case {
 		}
 		c.Ops = append(c.Ops, op)
 	}
+	c.ExtForm = genExtForms(t)
 	return c
 }
 
@@ -397,11 +426,11 @@ type run struct {
 	exts  [4]*mext
 	cur   string // env API being called (for panic attribution)
 
-	touched      map[int]bool
-	innerDefine  bool
-	afterInner   bool
-	executed     int
-	copied       map[int]bool // live indices that are a copy or have been copied
+	touched     map[int]bool
+	innerDefine bool
+	afterInner  bool
+	executed    int
+	copied      map[int]bool // live indices that are a copy or have been copied
 }
 
 var hexRe = regexp.MustCompile(`0x[0-9a-fA-F]+`)
@@ -908,6 +937,9 @@ func (r *run) step(i int, op Op, o *h.Obs) *h.Fail {
 		old := nd.ext
 		one(outcome{apply: func() { nd.ext = x }, undo: func() { nd.ext = old }})
 		o.Class("setext:%d", op.Ext&3)
+		if x != nil {
+			o.Class("ext-installed:" + extFormNames[x.form])
+		}
 
 	case "NewEnv":
 		x := r.exts[op.Ext&3]
@@ -920,6 +952,9 @@ func (r *run) step(i int, op Op, o *h.Obs) *h.Fail {
 		}
 		newNode = newModelNode(nd, x)
 		one(outcome{})
+		if x != nil {
+			o.Class("ext-installed:" + extFormNames[x.form])
+		}
 
 	case "NewRoot":
 		x := r.exts[op.Ext&3]
@@ -932,6 +967,9 @@ func (r *run) step(i int, op Op, o *h.Obs) *h.Fail {
 		}
 		newNode = newModelNode(nil, x)
 		one(outcome{})
+		if x != nil {
+			o.Class("ext-installed:" + extFormNames[x.form])
+		}
 
 	case "NewModule":
 		call = func() { g.e, g.err = e.NewModule(name) }
@@ -1062,7 +1100,7 @@ func (r *run) step(i int, op Op, o *h.Obs) *h.Fail {
 
 func oracle(c Case, o *h.Obs) *h.Fail {
 	r := &run{c: c, idx: map[*env.Env]int{}, touched: map[int]bool{}, copied: map[int]bool{}}
-	r.exts = newExts()
+	r.exts = newExts(c.ExtForm)
 
 	var root *env.Env
 	r.cur = "NewEnv"
@@ -1080,6 +1118,9 @@ func oracle(c Case, o *h.Obs) *h.Fail {
 		return r.fail(-1, "C12|result|NewRoot|nil-scope", "env.NewEnv() returned nil")
 	}
 	r.addLive(root, newModelNode(nil, x))
+	if x != nil {
+		o.Class("ext-installed:" + extFormNames[x.form])
+	}
 	delete(r.touched, 0)
 	if f := r.checkState(-1, Op{Op: "NewRoot", Ext: c.RootExt}, 0); f != nil {
 		return f
@@ -1116,6 +1157,38 @@ func oracle(c Case, o *h.Obs) *h.Fail {
 		}
 	}
 	o.Class("max-chain-depth:%d", maxDepth)
+	// chains (in the final state) on which two scopes next to each other among those with an external lookup have: the same object twice,
+	// two objects of one Go type, of one type that Go cannot compare, of different types
+	seen := map[string]bool{}
+	for _, nd := range r.nodes {
+		var first *mext
+		for p := nd; p != nil; p = p.parent {
+			if p.ext == nil {
+				continue
+			}
+			if first == nil {
+				first = p.ext
+				continue
+			}
+			switch {
+			case p.ext == first:
+				seen["same-object"] = true
+			case p.ext.form == first.form:
+				seen["same-go-type"] = true
+			default:
+				seen["different-go-types"] = true
+			}
+			if p.ext.form == first.form && extFormUncomparable(first.form) {
+				seen["same-uncomparable-go-type"] = true
+			}
+			first = p.ext
+		}
+	}
+	for _, k := range []string{"same-object", "same-go-type", "same-uncomparable-go-type", "different-go-types"} {
+		if seen[k] {
+			o.Class("chain-with-two-lookups:" + k)
+		}
+	}
 	o.Note = strings.ReplaceAll(renderHistory(c, len(c.Ops)), "\n", "; ")
 	return nil
 }
@@ -1123,7 +1196,7 @@ func oracle(c Case, o *h.Obs) *h.Fail {
 func TestC12(t *testing.T) {
 	c := h.New(t, "C12")
 	defer c.Finish()
-	c.Rule("histories of 1..30 env API calls (Define/DefineValue/DefineGlobal[Value]/Set[Value]/Get[Value]/Addr/Delete/DeleteGlobal/DefineType/DefineReflectType/DefineGlobal[Reflect]Type/Type/Get{Value,Type}Symbols/NewEnv/env.NewEnv/NewModule/GetEnvFromPath(len 0..3)/Copy/DeepCopy/String/SetExternalLookup) on a growing forest of <=12 live scopes, names from {a,b,c,m,\"\",int64,bool,e,a.b,x.y.z,.}, values unique per step (int64, string, nil, addressable int64, a live scope as module alias), three map-backed external lookups; after every call result and the state of every live scope are compared with a dictionary-chain model; non-trivial = >=6 executed calls addressing/creating >=3 scopes and a delete/copy/module/path call after a successful define in a non-root scope; distinct by history")
+	c.Rule("histories of 1..30 env API calls (Define/DefineValue/DefineGlobal[Value]/Set[Value]/Get[Value]/Addr/Delete/DeleteGlobal/DefineType/DefineReflectType/DefineGlobal[Reflect]Type/Type/Get{Value,Type}Symbols/NewEnv/env.NewEnv/NewModule/GetEnvFromPath(len 0..3)/Copy/DeepCopy/String/SetExternalLookup) on a growing forest of <=12 live scopes, names from {a,b,c,m,\"\",int64,bool,e,a.b,x.y.z,.}, values unique per step (int64, string, nil, addressable int64, a live scope as module alias), three map-backed external lookups, each in one of five Go representations drawn per case (pointer, named map type, struct value holding maps, named func type, comparable struct value - the model does not know the representation); after every call result and the state of every live scope are compared with a dictionary-chain model; non-trivial = >=6 executed calls addressing/creating >=3 scopes and a delete/copy/module/path call after a successful define in a non-root scope; distinct by history")
 	h.Run(c, "history", c.N(6000, 60000), gen, oracle)
 	c.Rule("sub-check 'shadowed': scripted histories - a module bound in an outer scope, a plain value / nil / nil scope pointer (or nothing) of the same name in a scope between, members of the module that are plain values, nil scope pointers or modules - followed by path lookups of length 1-3 from the scopes below and a short random tail; same oracle")
 	h.Run(c, "shadowed", c.N(3000, 30000), genShadowed, oracle)
